@@ -775,7 +775,8 @@ def _threaded(ctx, sp, pool, clock, classes, pool_index):
                     renders = [parse_ipy(obs, names)] if obs._widget_cache else []
                 if not renders:
                     ctx.fail("last-output:%s" % KN[kind], "%s observer: nothing was rendered by the update thread" % KN[kind], replay)
-                check_last(ctx, KN[kind], kind, renders, m, replay)
+                # (totals announced after the section already showed as done are outside what a run produces: see gen_case 'so')
+                check_last(ctx, KN[kind], kind, renders, m, replay, soft=(kind == 0 and not case["so"]))
                 # elapsed: replay the clock log
                 busy, last, active, ch = F(0), None, 0, list(changes)
                 for t, who, tid in clock.log:
